@@ -7,7 +7,9 @@ Not proved (measured by the correspondence run only): the "within 1/upsample_fac
 for band-limited sub-pixel shifts.  The correlation theorem that identifies the spatial
 correlation `cc` with `real(ifft2(fft2(ref)·conj(fft2(im))))` of the code is proved
 (`correlation_theorem`, from the shared spectral core), so the `_fft` theorems below are about
-the table the code really computes.
+the table the code really computes; the Fourier shift theorem for the aligned image
+(`aligned_image_integer_shift`) and the exact condition for a strict patch maximum
+(`patch_strict_max_iff_*`) are proved as well.
 -/
 namespace QuantemModel.Props.C13
 open QuantemModel QuantemModel.Registration Finset
@@ -273,6 +275,23 @@ theorem identical_zero_upsampled_np_fft {M N : ℕ} (hM : 0 < M) (hN : 0 < N) (x
     shiftNpUp M N up (ccRealFFT M N x x) (ccRealFFT M N x x) (ccF (dft2At M N x) (dft2At M N x)) = (0, 0) := by
   rw [correlation_theorem hM hN]
   exact identical_zero_upsampled_np hM hN x hx up hup _ hstrict
+
+/-- **Fourier shift theorem for the returned aligned image** (`return_shifted_image=True`): for an
+integer shift `(r, c)`, `real(ifft2(fft2(im) * exp(-2πi(kx·r + ky·c))))` is `im` rolled by `(r, c)`
+— the phase ramp with the signed `fftfreq` frequencies acts as `np.roll`. -/
+theorem aligned_image_integer_shift {M N : ℕ} (hM : 0 < M) (hN : 0 < N) (im : ℕ → ℕ → ℝ) (r c : ℤ) (n m : ℕ) :
+    idft2ReAt M N (rampAt M N (dft2At M N im) (r : ℝ) (c : ℝ)) n m = applyShift M N im r c n m :=
+  aligned_integer_shift hM hN im r c n m
+
+/-- **The aligned image matches the reference**: for `im = roll(x, (a, b))` and any integer shift
+congruent to the returned one, the aligned image the code returns reproduces `x` on the whole cell. -/
+theorem aligned_image_reproduces_reference {M N : ℕ} (hM : 0 < M) (hN : 0 < N) (x : ℕ → ℕ → ℝ) (a b r c : ℤ)
+    (hr : (M : ℤ) ∣ (r - -a)) (hc : (N : ℤ) ∣ (c - -b)) :
+    ∀ i j, i < M → j < N →
+      idft2ReAt M N (rampAt M N (dft2At M N (rollImg M N x a b)) (r : ℝ) (c : ℝ)) i j = x i j := by
+  intro i j hi hj
+  rw [aligned_integer_shift hM hN]
+  exact sign_convention hM hN x a b r c hr hc i j hi hj
 
 /-! ### when the patch maximum is strict (hypothesis `hstrict` of the zero-shift theorems) -/
 
